@@ -13,8 +13,9 @@ RULE = ("cases = (description: wcs | extra_coords | combined_wcs; correlation st
         "matrix up to 3x3 with no empty row (exhaustive) + sampled 4x4, realised by integer-matrix probe WCS with "
         "distinct weights, world axes optionally grouped into two-component objects; non-cubic shapes with pairwise "
         "distinct lengths; axes requested as ints of both signs, out-of-range ints, full / unique-substring / ambiguous "
-        "/ absent physical-type strings, and none; both pixel_corners settings); FITS TAN / rotated families by the "
-        "direct oracle; distinct by key; non-trivial = >= 2 pixel axes or an extra coordinate")
+        "/ absent physical-type strings, and none; both pixel_corners settings); FITS TAN / rotated families and extra "
+        "coords coupled to several cube axes in any axis order (2-D SkyCoord tables, WCS-backed ExtraCoords with any "
+        "injective mapping) by the direct oracle; distinct by key; non-trivial = >= 2 pixel axes or an extra coordinate")
 ASSUMPTIONS = ["_split_matrix and values_to_high_level_objects are astropy dependencies (component, objects_for)",
                "lookup-table extra coords are given linear tables so that the Gallina twin is an exact linear WCS; corners "
                "of extra coords fall outside the tables (NaN) and are left to the direct oracle"]
@@ -53,13 +54,14 @@ def _reqs(rng, n, types):
 def gen(tier, rng):
     cases = []
 
-    def add(desc, n, shape, mat, types, groups, tabs, corners, reqs, stratum, fam=None):
-        key = f"{desc}|{shape}|{mat}|{types}|{groups}|{tabs}|{corners}|{reqs}|{fam}"
+    def add(desc, n, shape, mat, types, groups, tabs, corners, reqs, stratum, fam=None, ec2=None):
+        key = f"{desc}|{shape}|{mat}|{types}|{groups}|{tabs}|{corners}|{reqs}|{fam}|{ec2}"
         cases.append({"key": key, "stratum": stratum, "desc": desc, "n": n, "shape": shape, "mat": mat, "types": types,
-                      "groups": groups, "tabs": tabs, "corners": corners, "reqs": reqs, "fam": fam,
+                      "groups": groups, "tabs": tabs, "corners": corners, "reqs": reqs, "fam": fam, "ec2": ec2,
                       "nontrivial": n >= 2 or bool(tabs),
                       "show": {"wcs": desc, "shape": shape, "corr": mat, "types": types, "object_groups": groups,
-                               "extra_coords": tabs, "pixel_corners": corners, "axes": reqs, "family": fam}})
+                               "extra_coords": tabs, "pixel_corners": corners, "axes": reqs, "family": fam,
+                               "coupled_extra_coords": ec2}})
 
     # exhaustive correlation structures up to 3x3 on the primary wcs, all axes requests of one int, both corners
     for npx in (1, 2, 3):
@@ -92,6 +94,34 @@ def gen(tier, rng):
                 tabs.append([rng.randrange(npx), rng.choice([1, 2, 3, -1]), rng.randrange(0, 9)])   # axis, slope, intercept
         corners = rng.random() < 0.5
         add(desc, npx, shape, mat, types, groups, tabs, corners, _reqs(rng, npx, types + [f"custom:e{k}" for k in range(len(tabs))]), "sample")
+    # extra coords whose coordinates are coupled to several cube axes, attached in any axis order: a 2-D SkyCoord
+    # table (one entry per pixel), or a WCS-backed ExtraCoords with any correlation matrix and any injective mapping
+    for _ in range(500 if tier == "quick" else 8000):
+        npx = rng.choice([2, 3, 3, 4])
+        nw = rng.choice([1, 2, 3])
+        mat = [[int(rng.random() < 0.5) for _ in range(npx)] for _ in range(nw)]
+        for r in mat:
+            if not any(r):
+                r[rng.randrange(npx)] = 1
+        shape = rng.sample(LENS, npx)
+        types = _types(nw, rng)
+        desc = rng.choice(["extra_coords", "extra_coords", "combined_wcs"])
+        if rng.random() < 0.45:
+            a, b = rng.sample(range(npx), 2)
+            ec2 = {"k": "sky2", "axes": [a, b]}
+            names = ["pos.eq.ra", "pos.eq.dec", "eq", "ra", "dec"]
+        else:
+            ne = rng.randint(2, npx)
+            mapping = rng.sample(range(ne), ne)           # cube pixel axis of each extra pixel dimension (the mapping
+                                                          # setter refuses values >= the extra WCS's pixel dimensions)
+            new = rng.choice([1, 2, 3])
+            emat = [[int(rng.random() < 0.6) for _ in range(ne)] for _ in range(new)]
+            for r in emat:
+                if not any(r):
+                    r[rng.randrange(ne)] = 1
+            ec2 = {"k": "wcsec", "mapping": mapping, "mat": emat, "types": [f"custom:x{k}" for k in range(new)]}
+            names = ec2["types"] + ["x0", "x"]
+        add(desc, npx, shape, mat, types, list(range(nw)), [], rng.random() < 0.3, _reqs(rng, npx, types + names), "ec-coupled", ec2=ec2)
     for _ in range(120 if tier == "quick" else 2000):
         nd = rng.choice([2, 3, 3, 4])
         fam = rng.choice(["tan", "rot", "tan_split"] if nd >= 3 else ["tan", "rot"])
@@ -128,6 +158,22 @@ def build(case, hold_back=0):
     tabs = list(enumerate(case["tabs"]))
     for k, (ax, slope, icpt) in tabs[:len(tabs) - hold_back]:
         cube.extra_coords.add(f"e{k}", ax, (np.arange(shape[ax]) * slope + icpt) * u.m, physical_types=f"custom:e{k}")
+    ec2 = case.get("ec2")
+    if ec2 and ec2["k"] == "sky2":
+        from astropy.coordinates import SkyCoord
+        from ndcube.extra_coords.table_coord import SkyCoordTableCoordinate
+        a, b = ec2["axes"]                        # table dimension 0 lies along cube axis a, dimension 1 along b
+        i, j = np.meshgrid(np.arange(shape[a]), np.arange(shape[b]), indexing="ij")
+        lon, lat = 1.0 + 2.0 * i + 0.25 * j, -3.0 + 0.5 * i + 1.5 * j
+        cube.extra_coords.add(("lon", "lat"), (a, b), SkyCoordTableCoordinate(SkyCoord(lon * u.deg, lat * u.deg), mesh=False))
+    elif ec2:
+        from astropy.wcs.wcsapi import HighLevelWCSWrapper
+        from ndcube import ExtraCoords
+        A = [[PRIMES[(3 * r + c) % len(PRIMES)] * x for c, x in enumerate(row)] for r, row in enumerate(ec2["mat"])]
+        ec = ExtraCoords(ndcube=cube)
+        ec.wcs = HighLevelWCSWrapper(make_probe_rect(A, [1000 * (k + 1) for k in range(len(A))], ec2["types"]))
+        ec.mapping = tuple(ec2["mapping"])
+        cube._extra_coords = ec
     return cube
 
 
@@ -332,7 +378,7 @@ def _ci(x):
 def coq_case(case, res):
     o = res["out"]
     TRIV = 'mk 0%nat [] None [] [] [] [] false [] (Some []) (Some [])'
-    if case["fam"]:
+    if case["fam"] or case.get("ec2"):
         return TRIV
     n, shape, desc = case["n"], case["shape"], case["desc"]
     A = _weights(case["mat"])
